@@ -34,7 +34,7 @@ def run(ctx):
     for rep in range(reps):
         for (nc, nk) in combos:
             d = gen.gen_definition(ctx.rng, n_state=ctx.rng.choice([2, 3]), n_control=nc and ctx.rng.choice([1, 2]),
-                                   n_calib=nk and ctx.rng.choice([1, 2]), n_sensors=ctx.rng.choice([1, 2]), depth=2)
+                                   n_calib=nk and ctx.rng.choice([1, 2]), n_sensors=2, depth=2)
             if rep % 2 == 1 and (nc, nk) in ((0, 0), (1, 1)):
                 # terms whose value depends on the sign of a sub-expression (sqrt(t^2), atan2 in the left half plane)
                 gen.force_sign_sensitive(ctx.rng, d)
@@ -42,6 +42,11 @@ def run(ctx):
             if nc:
                 # a control multiplied by a state (the control Jacobian depends on the state, and the state moves in the step)
                 d.state_model[d.state[0]] = d.state_model[d.state[0]] + d.control[0] * d.state[-1] * d.dt * 2 + d.control[-1] * d.state[0] * d.dt
+            if len(d.state) >= 2:
+                # a reading that is the plain average of two states: its Jacobian row is the exact constants 1/2, 1/2
+                k0a = sorted(d.sensors)[0]
+                d.sensors[k0a][gen.fresh_names(ctx.rng, 1, {x.name for x in d.all_symbols()} | {r for rd in d.sensors.values() for r in rd})[0]] = \
+                    (d.state[0] + d.state[-1]) / 2
             if len(d.state) >= 2:
                 # a reading that is bilinear in two different states (its Jacobian depends on the state although every pure
                 # second derivative vanishes)
@@ -54,6 +59,11 @@ def run(ctx):
                 while len(d.sensors[k0]) < 2:
                     d.sensors[k0][gen.fresh_names(ctx.rng, 1, {x.name for x in d.all_symbols()} | set(d.sensors[k0]))[0]] = d.state[-1] * 2 + d.state[0]
                 gen.unsort_readings(d)
+            # two sensors of DIFFERENT sizes on every filter (each reading is judged against the limit for its own size)
+            ka, kb = sorted(d.sensors)[0], sorted(d.sensors)[-1]
+            while len(d.sensors[ka]) == len(d.sensors[kb]):
+                d.sensors[ka][gen.fresh_names(ctx.rng, 1, {x.name for x in d.all_symbols()} | {r for rd in d.sensors.values() for r in rd})[0]] = \
+                    d.state[0] - d.state[-1] * 3
             process, sensor = eh.make_noises(ctx.rng, d)
             pt0 = gen.gen_point(ctx.rng, d)
             cal = pt0["cal"]
@@ -113,6 +123,22 @@ def run(ctx):
                         pred = fk.by_name(ekf.sensor_models[key].model(st))
                     spread = ctx.rng.choice([0.125, 1.0, 8.0])
                     z = {r: float(F(pred[r]).limit_denominator(1 << 16) + gen.dyadic(ctx.rng, -4, 4) * F(spread)) for r in Lr}
+                    sizes = sorted({len(rd) for rd in d.sensors.values()})
+                    if k is not None and len(sizes) >= 2 and (step % 2 == 1 or ctx.rng.random() < 0.3):
+                        # a reading whose normalised innovation squared lies BETWEEN the limit for this sensor's size and the limit for
+                        # another sensor's size (each reading is judged against the limit for its own size)
+                        m1 = len(Lr); m2 = [q for q in sizes if q != m1][0]
+                        t1, t2 = k * math.sqrt(2 * m1) + m1, k * math.sqrt(2 * m2) + m2
+                        with fk.quiet():
+                            Hn = np.asarray(ekf.sensor_jacobian(key, st), dtype=float)
+                        Qn = np.asarray(getattr(ekf.sensor_noises[key], "data", ekf.sensor_noises[key]), dtype=float)
+                        Sn = Hn @ P @ Hn.T + Qn
+                        e = np.array([[float(gen.dyadic(ctx.rng, 1, 4))] for _ in Lr])
+                        n1 = float((e.T @ np.linalg.inv(Sn) @ e).item())
+                        if n1 > 0:
+                            tt = math.sqrt(((t1 + t2) / 2) / n1)
+                            z = {r: float(pred[r]) + tt * float(e[j2, 0]) for j2, r in enumerate(Lr)}
+                            ctx.count("reading_between_two_limits")
                     case.update(op=f"update:{key}", z=z)
                     line = cppgen.point_line(f"update:{key}", d, cur, P.tolist(), z)
                     with fk.quiet():
